@@ -94,6 +94,7 @@ INVARIANT ResultClass
 INVARIANT OperandsContained
 INVARIANT RejectionDocumented
 INVARIANT EqIsEquivalence
+INVARIANT EqualHashEqual
 INVARIANT NeutralOps
 PROPERTY HeapImmutable
 CHECK_DEADLOCK FALSE
@@ -213,7 +214,7 @@ class Replayer:
                                       "is compatible")
             fresh = rid == len(heap) + 1
             heap2 = heap + [add] if fresh else heap
-            want = heap2[rid - 1]
+            want = heap2[rid - 1][:3]  # (kind, class, values); [3] = namespace-subclass flag
             obs = tree.observe(r)
             if obs != want:
                 raise Fail("value", f"{name}{op[1:]} returned {obs}; required {want} (last namespace "
@@ -221,7 +222,7 @@ class Replayer:
             # identity: permitted = fresh or an existing object with the required record
             alias = [i for i, x in objs.items() if x is r]
             for i in alias:
-                if heap[i - 1] != want:
+                if heap[i - 1][:3] != want:
                     raise Fail("alias", f"{name}{op[1:]} returned the existing object #{i} "
                                         f"{heap[i - 1]} where {want} is required")
             if (bool(alias) and not fresh and rid in alias) or (fresh and not alias):
@@ -238,10 +239,10 @@ class Replayer:
         # (iii) every live object still has the value the model says
         for i, x in objs2.items():
             obs = tree.observe(x)
-            if obs != heap2[i - 1]:
+            if obs != heap2[i - 1][:3]:
                 shared = any(d == i for d in e[7])
                 raise Fail("mutated-shared-default" if shared else "mutated",
-                           f"after {name}{op[1:]} live object #{i} is {obs}, was {heap2[i - 1]}"
+                           f"after {name}{op[1:]} live object #{i} is {obs}, was {heap2[i - 1][:3]}"
                            + (" (the shared default set of its class)" if shared else ""))
         for x, want in extras:
             if tree.observe(x) != want:
@@ -260,6 +261,9 @@ class Replayer:
         for p in j["eq"]:
             if tuple(p) not in heq:
                 raise Fail("hash-law", f"objects {p} of heap {heap2} are equal but hash differently")
+        if rel["dmiss"]:
+            raise Fail("dict-lookup", f"objects {rel['dmiss']} of heap {heap2} are equal but one is not "
+                                      "found in a dict / set keyed by the other")
         for p in j["hd"]:
             if tuple(p) in heq:
                 raise Fail("hash-ignores-class", f"objects {p} of heap {heap2} differ only in the "
@@ -330,7 +334,7 @@ class Replayer:
     def case_sig(self, e):
         heap, op = e[1], e[4]
         cl = lambda i: heap[i - 1][1] if i > 0 else (-1 if i == 0 else -100 - (-i) % 16)  # noqa: E731
-        return (self.info["t"], self.label, op[0], cl(op[1]), cl(op[2]), op[3],
+        return (self.info["t"], self.label, op[0], cl(op[1]), op[2] if op[0] == "NsNew" else cl(op[2]), op[3],
                 tuple(cl(i) for i in op[4]), tuple(f for f, _ in op[5]), tuple(e[6]), e[5] > len(heap))
 
     def run(self, only_first=None):
@@ -429,6 +433,7 @@ class Recorder:
             "exc": exc, "rid": rid, "heap": heap, "eq": rel["eq"], "heq": rel["heq"],
             "ct": rel["ct"], "gi": [t.getitems(x) for x in self.live],
             "bad": rel["asym"] + [[i, i] for i in rel["nonrefl"]],
+            "dmiss": rel["dmiss"],
         })
         return rid, exc
 
@@ -509,7 +514,7 @@ def random_history(choose, nmax: int, length: int, heap_cap: int = 9) -> dict:
 
         if name == "NsNew":
             c = has[choose(len(has))]
-            op = ["NsNew", 0, 0, c, [], kw_for(c)]
+            op = ["NsNew", 0, 1 if choose(3) == 0 else 0, c, [], kw_for(c)]
         elif name == "NsUpdate":
             a = ns[choose(len(ns))]
             op = ["NsUpdate", a, 0, 0, [], kw_for(cls_of(a))]
